@@ -226,7 +226,15 @@ def check(run):
             if cur is None or len(dis) < len(cur):
                 per_field_bad[dis[0]] = dis
     if nonbool:
-        run.incomplete("F-PATH/eq-truth-table", "Grid.__eq__:returns", where(eq), "a path returns a non-boolean / falls off")
+        ni = [vals for vals, (_t, res) in table.items() if res is NotImplemented]
+        direct = any(isinstance(x, ast.Call) and isinstance(x.func, ast.Attribute) and x.func.attr == "__eq__" for x in ast.walk(ne.node))
+        if ni and direct:
+            run.violation("F-PATH/eq-truth-table", "Grid.__eq__:returns", where(eq), "__eq__ returns NotImplemented on some path while __ne__ negates self.__eq__(other) directly: NotImplemented is truthy, so "
+                          "`grid != x` is False although `grid == x` is False as well (e.g. grid != None)", facts={"assignment": dict(zip([norm(a) for a in atoms], ni[0]))})
+        elif ni:
+            run.holds("F-PATH/eq-truth-table", "Grid.__eq__:returns", where(eq), "NotImplemented is returned for foreign operands and __ne__ goes through the == protocol", nontrivial=False)
+        else:
+            run.incomplete("F-PATH/eq-truth-table", "Grid.__eq__:returns", where(eq), "a path returns a non-boolean / falls off")
     k = "Grid.__eq__:all-agree->True"
     if all_true_ok:
         run.holds("F-PATH/eq-sufficient", k, where(eq), "all comparisons agreeing returns True")
